@@ -34,6 +34,7 @@ pub fn explorer_plan(prop: &str, thorough: bool) -> Option<Plan> {
     let plan = match prop {
         "C01" => {
             p.checks = Checks { forest: true, decode: true, build_must_succeed: true, termination: true, accuracy: true, ..Default::default() };
+            p.p_del_only_round = 0.08;
             p.rounds = (2, 6);
             p.p_bulk = 0.05;
             if thorough {
@@ -171,6 +172,7 @@ pub fn explorer_plan(prop: &str, thorough: bool) -> Option<Plan> {
         }
         "C13" => {
             p.checks = Checks { forest: true, id_log: true, chaos: true, build_must_succeed: true, termination: true, accuracy: true, ..Default::default() };
+            p.p_del_only_round = 0.08;
             p.threads = vec![2, 4, 8, 16];
             p.n_trees = vec![Some(5), Some(9), Some(20)];
             p.split_after = vec![Some(1), Some(2), Some(3)];
@@ -210,6 +212,7 @@ pub fn explorer_plan(prop: &str, thorough: bool) -> Option<Plan> {
         }
         "C15" => {
             p.checks = Checks { options: true, build_must_succeed: true, accuracy: true, ..Default::default() };
+            p.p_del_only_round = 0.08;
             p.dims = vec![1, 1, 2, 3, 5, 8, 16, 33, 64, 130];
             // also requested counts larger than the usual range (and larger than the number of items)
             p.n_trees = vec![None, None, Some(1), Some(2), Some(3), Some(5), Some(9), Some(10), Some(17), Some(20), Some(21), Some(40), Some(64)];
